@@ -66,6 +66,10 @@ type ArrivalConn struct {
 	busy     int       // number of transport calls currently inside Read/Write (overlap detection)
 	owner    spec.Req  // request whose reply is pending
 	readyAt  time.Time // the pending reply becomes readable at this time
+	// ops is touched WITHOUT any lock by every transport call (Read, Write, Flush, Close), like the internal state of a port or
+	// connection object that is not safe for concurrent use: under the race detector two transport calls that are not ordered
+	// by the client's own synchronisation are reported even if they do not overlap in time
+	ops int
 }
 
 // NewConn creates a connection attached to the monitor.
@@ -97,6 +101,7 @@ func (c *ArrivalConn) nextYield() int {
 }
 
 func (c *ArrivalConn) Write(p []byte) (int, error) {
+	c.ops++
 	m := c.M
 	m.mu.Lock()
 	if c.closed {
@@ -158,6 +163,7 @@ func (c *ArrivalConn) Write(p []byte) (int, error) {
 }
 
 func (c *ArrivalConn) Read(p []byte) (int, error) {
+	c.ops++
 	m := c.M
 	m.mu.Lock()
 	if c.closed {
@@ -212,6 +218,7 @@ func (c *ArrivalConn) Read(p []byte) (int, error) {
 // Flush is the optional serial-port operation that discards buffered input. Like every transport call it must not overlap
 // another call on the same port; it takes a moment (FlushDelay) and throws away whatever reply bytes are unread.
 func (c *ArrivalConn) Flush() error {
+	c.ops++
 	m := c.M
 	m.mu.Lock()
 	if c.closed {
@@ -243,7 +250,12 @@ func (c *ArrivalConn) Flush() error {
 // Close marks the connection closed; later calls fail with net.ErrClosed. CloseDelay makes Close slow (a port that takes a
 // while to release), which keeps a client's lock held for longer.
 func (c *ArrivalConn) Close() error {
+	c.ops++
 	c.M.mu.Lock()
+	c.busy++
+	if c.busy > 1 {
+		c.M.violate("conn %d: Close called while another transport call on the same connection is in progress", c.id)
+	}
 	d := c.M.CloseDelay
 	c.M.mu.Unlock()
 	if d > 0 {
@@ -251,6 +263,7 @@ func (c *ArrivalConn) Close() error {
 	}
 	c.M.mu.Lock()
 	c.closed = true
+	c.busy--
 	c.M.mu.Unlock()
 	return nil
 }
